@@ -85,7 +85,23 @@ def parseEntity (s : String) : Option Entity :=
     pure { host := ← hexB h, method := ← hexB m, uri := ← hexB u, tag := ← hexB t, body := ← hexB b, headers := hdrs }
   | _ => none
 
-def handleFile (f : Fmt) (kv : List (String × String)) (impl : String) : String × String :=
+/-- the provider's `headers` option: `cfgh=<n>/<hex,hex,…>` (the strings `[key: value]`), absent = none -/
+def parseCfg (kv : List (String × String)) : Option (List Bytes) :=
+  match lookup kv "cfgh" with
+  | none => some []
+  | some s => parseBlankList s
+
+/-- `some (.ok cfg)`: decoded option; `some (.error obs)`: `NewProvider` fails with this observation;
+`none`: outside the model (repeated key) -/
+def cfgOf (kv : List (String × String)) : Option (Except String Hdrs) :=
+  match parseCfg kv with
+  | none => none
+  | some strs =>
+    match decodeCfg strs with
+    | .error e => some (.error (obsLine e.name []))
+    | .ok cfg => if cfgDistinct cfg then some (.ok cfg) else none
+
+def handleFileCfg (f : Fmt) (cfg : Hdrs) (kv : List (String × String)) (impl : String) : String × String :=
   let k := (getN? kv "k").getD 1
   let pre := getS kv "pre" == "1"
   match hexB (getS kv "file") with
@@ -94,9 +110,9 @@ def handleFile (f : Fmt) (kv : List (String × String)) (impl : String) : String
     let tbl := parseTable (getS kv "tbl")
     let mobs : Option String :=
       match f with
-      | .uri => ammoObs (uriDeliver file k pre)
-      | .uripost => ammoObs (uripostDeliver true file k pre)
-      | .raw => rawObs tbl (rawDeliver file k pre)
+      | .uri => ammoObs (withCfgRes cfg (uriDeliver file k pre))
+      | .uripost => ammoObs (withCfgRes cfg (uripostDeliver true file k pre))
+      | .raw => rawObs tbl (rawDeliver file k pre)      -- the table already carries the `headers` option
     let m := mobs.getD "*"
     match lookup kv "items" with
     | none => (m, if mobs.isSome then "skip:malformed" else "skip:outside-model")
@@ -119,23 +135,35 @@ def handleFile (f : Fmt) (kv : List (String × String)) (impl : String) : String
             | none => (m, "skip:frame-not-a-request")
             | some pass => (m, judge (expected pass k) (expectedErr pass) ireqs ierr)
           | _ =>
-            let pass := (expReqs f [] items).map reqStr
+            let pass := (expReqs f cfg [] items).map reqStr
             (m, judge (expected pass k) (expectedErr pass) ireqs ierr)
       | _, _, none => (m, s!"fail:crash:unparsable observation {impl.take 80}")
       | _, _, _ => (m, "fail:driver:unparsable items/layout")
 
-def handleJson (kv : List (String × String)) (impl : String) : String × String :=
+def handleFile (f : Fmt) (kv : List (String × String)) (impl : String) : String × String :=
+  match cfgOf kv with
+  | none => ("*", "skip:headers-option-outside-model")
+  | some (.error obs) => (obs, "skip:bad-headers-option")
+  | some (.ok cfg) => handleFileCfg f cfg kv impl
+
+def handleJsonCfg (cfg : Hdrs) (kv : List (String × String)) (impl : String) : String × String :=
   let k := (getN? kv "k").getD 1
   let pre := getS kv "pre" == "1"
   match (splitList (getS kv "ents") ";").mapM parseEntity, parseObs impl with
   | some ents, some (ierr, ireqs) =>
-    let m := (ammoObs (jsonDeliver (getS kv "mode" == "array") ents k pre)).getD "*"
+    let m := (ammoObs (withCfgRes cfg (jsonDeliver (getS kv "mode" == "array") ents k pre))).getD "*"
     if !ents.all entityKnown then (m, "skip:outside-model")
     else
-      let pass := ents.map fun e => reqStr (entityReq e.host e.method e.uri e.tag e.body e.headers)
+      let pass := ents.map fun e => reqStr (entityReq cfg e.host e.method e.uri e.tag e.body e.headers)
       (m, judge (expected pass k) (expectedErr pass) ireqs ierr)
   | none, _ => ("-", "fail:driver:unparsable entities")
   | _, none => ("-", s!"fail:crash:unparsable observation {impl.take 80}")
+
+def handleJson (kv : List (String × String)) (impl : String) : String × String :=
+  match cfgOf kv with
+  | none => ("*", "skip:headers-option-outside-model")
+  | some (.error obs) => (obs, "skip:bad-headers-option")
+  | some (.ok cfg) => handleJsonCfg cfg kv impl
 
 def handle : Handler := fun input impl =>
   let kv := parseKV input
